@@ -342,6 +342,8 @@ func checkC15(c *Ctx, r *Report) {
 	r.Rule("R15b", "every operation that moves existing elements inside a list (copy within fields.a) is followed by re-contexting of every moved element with its new index", 1)
 	movesRule(c, r)
 
+	indexTextRule(c, r)
+
 	r.Rule("R15d", "every implementation of value.SetContext stores its argument into storage reachable from the receiver on every path", 2)
 	setContextRule(c, r)
 
@@ -1111,4 +1113,147 @@ func shortType(t types.Type) string {
 		return n.Obj().Name()
 	}
 	return typeStr(t)
+}
+
+// renderedInt: v is the decimal rendering of an integer value (fmt.Sprintf("%d"/"%v", x), strconv.Itoa(x),
+// strconv.FormatInt(int64(x), 10)); returns x.
+func renderedInt(v ssa.Value) ssa.Value {
+	if x := sprintfOf(v); x != nil {
+		return x
+	}
+	call, ok := v.(*ssa.Call)
+	if !ok {
+		return nil
+	}
+	f := call.Call.StaticCallee()
+	if f == nil {
+		return nil
+	}
+	switch f.String() {
+	case "strconv.Itoa":
+		return call.Call.Args[0]
+	case "strconv.FormatInt", "strconv.FormatUint":
+		if k, ok := ConstInt(call.Call.Args[1]); ok && k == 10 {
+			x := call.Call.Args[0]
+			if cv, ok := x.(*ssa.Convert); ok {
+				x = cv.X
+			}
+			return x
+		}
+	}
+	return nil
+}
+
+// indexTextRule (R15g): the name under which a list entry is known is the decimal rendering of its position.
+// idxField.SetValue names the stored value with the field's text, so idxField.String() must render the field's
+// own integer — or, when the text is kept in the field, every idxField that is built must keep the rendering of
+// the very integer it keeps. A field that keeps the user's spelling ("01", "0x2", "+1") stores the entry at
+// position 1 or 2 under another name.
+func indexTextRule(c *Ctx, r *Report) {
+	r.Rule("R15g", "the text of an index field is the decimal rendering of its own integer (idxField.String, and every idxField built with a stored text)", 1)
+	idxT := c.Named("", "idxField")
+	str := c.MethodImpl(idxT, "String")
+	if str == nil {
+		r.add("R15g", "ucfg.idxField.String", "renders its integer", "-", Undecided, true, "idxField.String not found")
+		return
+	}
+	name := c.FnName(str)
+	direct, viaField := true, ""
+	for _, ret := range Returns(str) {
+		v := RetVal(ret, 0)
+		x := renderedInt(v)
+		isOwn := false
+		if x != nil {
+			for _, s := range Sources(x) {
+				if _, f, ok := FieldOf(s); ok && f == "i" {
+					isOwn = true
+				}
+				if l, ok := s.(*ssa.UnOp); ok && l.Op == token.MUL {
+					if _, f, ok := FieldOf(l.X); ok && f == "i" {
+						isOwn = true
+					}
+				}
+				if fv, ok := s.(*ssa.Field); ok {
+					if _, f, ok := FieldOf(fv); ok && f == "i" {
+						isOwn = true
+					}
+				}
+			}
+		}
+		if isOwn {
+			continue
+		}
+		direct = false
+		for _, s := range Sources(v) {
+			if l, ok := s.(*ssa.UnOp); ok && l.Op == token.MUL {
+				if nt, f, ok := FieldOf(l.X); ok && nt == idxT {
+					viaField = f
+				}
+			}
+			if fv, ok := s.(*ssa.Field); ok {
+				if nt, f, ok := FieldOf(fv); ok && nt == idxT {
+					viaField = f
+				}
+			}
+		}
+	}
+	if direct {
+		r.OK("R15g", name, "renders its integer", c.Pos(str.Pos()), "String() renders the field's own integer")
+		return
+	}
+	if viaField == "" {
+		r.Bad("R15g", name, "renders its integer", c.Pos(str.Pos()), "idxField.String() returns neither the rendering of the field's integer nor a text kept in the field: list entries are named by something else than their position")
+		return
+	}
+	// the text is kept in the field: every store into that member must be the rendering of what is stored into i
+	n := 0
+	for _, fn := range c.SrcFuncs() {
+		if fn.Pkg != c.SSA[""] {
+			continue
+		}
+		Instrs(fn, false, func(in ssa.Instruction) {
+			st, ok := in.(*ssa.Store)
+			if !ok {
+				return
+			}
+			fa, ok := st.Addr.(*ssa.FieldAddr)
+			if !ok {
+				return
+			}
+			nt, f, ok := FieldOf(fa)
+			if !ok || nt != idxT || f != viaField {
+				return
+			}
+			n++
+			x := renderedInt(st.Val)
+			good := false
+			if x != nil {
+				// the integer stored into member i of the same object
+				for _, ref := range *fa.X.Referrers() {
+					if fa2, ok := ref.(*ssa.FieldAddr); ok {
+						if _, f2, _ := FieldOf(fa2); f2 == "i" {
+							for _, r2 := range *fa2.Referrers() {
+								if st2, ok := r2.(*ssa.Store); ok && st2.Addr == ssa.Value(fa2) {
+									if st2.Val == x || SameValue(st2.Val, x) {
+										good = true
+									}
+									if cv, ok := st2.Val.(*ssa.Convert); ok && (cv.X == x || SameValue(cv.X, x)) {
+										good = true
+									}
+									if cv, ok := x.(*ssa.Convert); ok && (cv.X == st2.Val || SameValue(cv.X, st2.Val)) {
+										good = true
+									}
+								}
+							}
+						}
+					}
+				}
+			}
+			r.Check(good, "R15g", c.FnName(fn), "stored index text", c.Pos(st.Pos()), "the text kept in the field is the rendering of the integer kept next to it",
+				"an index field is built with a text that is not the decimal rendering of its integer (the user's spelling, say): the entry is stored at the integer's position under another name — Path(), FlattenedKeys and diff report a key that does not exist")
+		})
+	}
+	if n == 0 {
+		r.Bad("R15g", name, "renders its integer", c.Pos(str.Pos()), "idxField.String() returns member "+viaField+", which nothing assigns")
+	}
 }
